@@ -221,3 +221,42 @@ func zzH_C16p() {
 	c.Close()
 	vReach("end")
 }
+
+// zzH_C16h: routing after the target list shrinks or changes while the previous targets are live and
+// have latency estimates (LeastTime keeps a separate heap): Update(X), the detector finds them, a few
+// calls, Update(Y), then calls with and without a detector round in between; every call is routed to
+// a member of Y.
+func zzH_C16h() {
+	rt := &zzRT{up: map[string]bool{"a": true, "b": true, "c": true}}
+	c := NewClient(nil)
+	c.Transport = rt
+	if vParam("c16h.allpolicies", 0) == 1 {
+		c.Scheduling = Scheduling(vChoose("policy", 3))
+	} else {
+		c.Scheduling = LeastTimeScheduling // the policy with a derived structure of its own (the heap)
+	}
+	vSetClockStep(1)
+	vSetTimerBudget(vParam("clt.ticks", 1))
+	x := [][]string{{"c", "b", "a"}, {"a", "b"}}[vChoose("first", vParam("c16h.firsts", 1))]
+	c.Update(x...)
+	vQuiesce()
+	for i := 0; i < 1+vChoose("warm-calls", 2); i++ {
+		c.Call("S.M", nil, nil)
+	}
+	y := [][]string{{"a", "b"}, {"b"}, {"b", "c"}}[vChoose("second", 3)]
+	c.Update(y...)
+	if vChoose("settle", 2) == 1 {
+		vQuiesce()
+	}
+	for i := 0; i < 2; i++ {
+		n := len(rt.calls)
+		err := c.Call("S.M", nil, nil)
+		if len(rt.calls) > n {
+			vAssert(zzSet(y)[rt.calls[n]], "routed-to-current-target")
+		} else {
+			vAssert(err == ErrTimeout || err == ErrDial, "unrouted-call-fails-with-timeout")
+		}
+	}
+	c.Close()
+	vReach("end")
+}
